@@ -9,7 +9,7 @@ from vlib.sx import Pair
 META = {
     "id": "C28",
     "level": "proof",
-    "technique": "Coq theorems wf_answer_applies (an answer accepted by the executable wf_answer applies to its query without panic, on the substitution model with panic outcomes) and canon_closed (canonicalization output is closed, well-kinded, one binder per class) + every solution / guidance / enumerated answer of both real solvers on generated programs is passed through the Coq wf_answer and really applied to the query in Rust under catch_unwind; the model of the application is compared with the real result",
+    "technique": "Coq theorems wf_answer_universes (a well-formed answer keeps the value of every query unknown within that unknown's universe), wf_answer_applies (an answer accepted by the executable wf_answer applies to its query without panic, on the substitution model with panic outcomes) and canon_closed (canonicalization output is closed, well-kinded, one binder per class) + every solution / guidance / enumerated answer of both real solvers on generated programs is passed through the Coq wf_answer and really applied to the query in Rust under catch_unwind; the model of the application is compared with the real result",
     "level_text": "Machine-checked proofs (Coq 8.16, axiom-free): wf_answer q a = true and a closed query imply apply_answer a q = Ok _ (SubstFolder with its three panic sites modelled); canonicalization produces closed, well-kinded values with one binder per unbound class. Tie to /repo on every run: programs and goals (types, lifetimes and consts as unknowns, nested forall/exists, hypotheses) are solved by the real SLG and recursive solvers (forked child, CPU limit) and by solve_multiple; every Canonical<ConstrainedSubst> / guidance substitution is dumped with the query's canonical binders and universe count, checked with the Coq wf_answer (must be true), applied with the real Substitution::apply (must not panic), and the result compared with the model's.",
     "level_note": "Trusted: Coq kernel; models coq/Infer/{Answer,Canon}.v (tied by correspondence on generated cases only); harness conversion chalk_ir->sexp. The answer-construction functions of the engines themselves (root_answer, Fulfill::solve's final canonicalization, make_solution) are NOT modelled: for them the check is a search for a failing input, not a proof (rec_answer_wf / slg_answer_wf of DESIGN are not proved). Region constraints of a ConstrainedSubst are outside wf_answer (the property speaks of the substitution). A solver panic whose location is in the answer/canonicalization layer is reported as a violation; other panics, timeouts and aborts are counted as inconclusive.",
     "design_ref": "DESIGN.md section 4 C28",
@@ -164,7 +164,7 @@ def panic_site(x):
 
 
 def run(ctx):
-    ok, why = ctx.proof_stage("Props.C28", ["wf_answer_applies", "canon_closed"], extra_targets=["Infer/Exec.vo"])
+    ok, why = ctx.proof_stage("Props.C28", ["wf_answer_applies", "wf_answer_universes", "canon_closed", "canon_query_wf"], extra_targets=["Infer/Exec.vo"])
     core.build_harness(bins=["canon"])
     r = ctx.rng
     k_multi = 6
@@ -275,10 +275,11 @@ def run(ctx):
         case, query, src, bs, subst, applied = answers[j]
         parts = core.coq_eval(ctx.work, "wf_parts", imports, [
             "let q := %s in let a := %s in (wf_query q, kinds_match (a_subst a) (q_binders q), forallb (closed_f (map fst (a_binders a)) 0) (a_subst a), "
-            "forallb (fun b => snd b <? q_universes q) (a_binders a), forallb (ph_below (q_universes q)) (a_subst a))" % (sx.to_coq(query), sx.to_coq(Pair(bs, subst)))])[0]
+            "forallb (fun b => snd b <? q_universes q) (a_binders a), forallb (ph_below (q_universes q)) (a_subst a), "
+            "entries_univ_ok (map snd (a_binders a)) (a_subst a) (q_binders q))" % (sx.to_coq(query), sx.to_coq(Pair(bs, subst)))])[0]
         if viol < 4:
             ctx.violation({"kind": "property", "what": "a returned solution is not a well-formed answer for its query (Coq wf_query/wf_answer = false)", "solver": src,
-                           "parts(wf_query, one entry per binder of its kind, closed under own binders, binder universes < query universes, placeholder universes < query universes)": parts,
+                           "parts(wf_query, one entry per binder of its kind, closed under own binders, binder universes < query universes, placeholder universes < query universes, per unknown: value stays within the unknown's universe)": parts,
                            "case": sx.to_sexp(case), "query": sx.to_sexp(query), "answer": sx.to_sexp(Pair(bs, subst))})
         viol += 1
     ap_pairs = [(Pair(Pair(bs, subst), query), ("Panic", "OtherPanic") if is_panic(applied) else ("Ok", applied[1]), j)
